@@ -255,12 +255,17 @@ def r5(run, db):
         key = f.id.split("::")[-1]
         adms = f.calls_to(adm.admit[0].id)
         enq = [c for c in f.calls() if c.matches(r"UnboundedSender::<T>::send$")]
-        gates = [s for s in status_tests(f) if s["op"] == ">=" and s["const"] == "Draining" and any(r["k"] == "call" and r["call"].is_("get_status") for r in s["subject"])]
-        run.check(len(adms) == 1 and len(enq) == 1 and len(gates) == 1, key + "|shape", "one status gate, one admission, one enqueue", "send path shape: %d gates, %d admissions, %d enqueues" % (len(gates), len(adms), len(enq)), f.where())
-        if not (adms and enq and gates):
+        run.check(len(adms) == 1 and len(enq) == 1, key + "|shape", "one admission, one enqueue", "send path shape: %d admissions, %d enqueues" % (len(adms), len(enq)), f.where())
+        if not (adms and enq):
             continue
-        a, q, g = adms[0], enq[0], gates[0]
-        run.check(g["false_edge"] and f.edge_dominates(g["false_edge"], a.site), key + "|gate<admit", "the `status >= Draining` gate's false edge dominates admission", "admission is not behind the status gate", a.where())
+        a, q = adms[0], enq[0]
+        gates = status_gates_at(f, a.site)
+        admit = admitted_statuses(gates)
+        late = [v for v in admit if v in ("Draining", "Stopping", "Stopped")]
+        run.check(bool(gates) and not late, key + "|gate<admit", "admission is attempted only while the status is %s (%s)" % (admit, show_gates(gates)),
+                  "admission is %s: a %s actor still takes new messages" % ("not behind a fresh status gate" if not gates else "reachable under %s" % show_gates(gates), late or "draining/stopping"), a.where())
+        early = [v for v in ("Unstarted", "Starting", "Running", "Upgrading") if v not in admit]
+        run.check(not early, key + "|gate-admits-live", "the gate admits every pre-drain status (messages sent before start are queued)", "the status gate refuses messages while the actor is %s" % early, a.where())
         some = nested_variant_edge(f, a, ["Some"])
         run.check(some is not None and f.edge_dominates(some, q.site), key + "|admit<enqueue", "the enqueue is dominated by the Some(ticket) edge of admission", "enqueue without a ticket", q.where())
         run.check(not f.in_cycle(q.site), key + "|enqueue-once", "the enqueue is not in a cycle (at most one enqueue per send)", "enqueue inside a cycle", q.where())
@@ -294,13 +299,17 @@ def r6(run, db):
             roots = f.origins(s["rv"]["ops"][0])
             run.check(all(r["k"] == "arg" and r["local"] == 2 for r in roots) and roots, key + "|handback", "SendErr carries the original message parameter", "SendErr carries something other than the message parameter", f.where(s.get("l")))
         run.anchor(key + " SendErr constructions", n, 2, f.where())
-        gates = [s for s in status_tests(f) if s["op"] == ">=" and s["const"] == "Draining"]
         adms = f.calls_to(adm.admit[0].id)
-        if gates and adms:
+        if adms:
             errs = [site for site, s in f.aggregates(adt="MessagingErr", variant="SendErr")]
-            te = gates[0]["true_edge"]
             ne = nested_variant_edge(f, adms[0], ["None"])
-            run.check(te and any(f.edge_dominates(te, e) for e in errs), key + "|gate->SendErr", "status gate true edge -> SendErr(message)", "a refused send (status) does not hand the message back", f.where())
+            # the complement of the admission gate: some SendErr is built exactly where the status forbids admission
+            okg = False
+            for e in errs:
+                gs = status_gates_at(f, e)
+                if gs and set(admitted_statuses(gs)) <= {"Draining", "Stopping", "Stopped"}:
+                    okg = True
+            run.check(okg, key + "|gate->SendErr", "the refusing edge of the status gate builds SendErr(message)", "a refused send (status) does not hand the message back", f.where())
             run.check(ne and any(f.edge_dominates(ne, e) for e in errs), key + "|closed->SendErr", "refused admission -> SendErr(message)", "a refused send (closed admission) does not hand the message back", f.where())
     m = model(db)
     for rt in m.runtimes():
